@@ -1,0 +1,10 @@
+// Copyright IBM Corp. 2020, 2025
+// SPDX-License-Identifier: MPL-2.0
+
+//go:build !verif
+
+package segment
+
+// verifSched marks a named schedule point. It is a no-op unless the package is
+// built with the "verif" tag (verification harnesses only).
+func verifSched(point string) {}
